@@ -867,12 +867,16 @@ impl Patch {
             } => {
                 if let Some(revision) = lookup::revision_mut(self, &revision)? {
                     let key = (author, reaction);
-                    let reactions = revision.reactions.entry(location).or_default();
 
                     if active {
-                        reactions.insert(key);
-                    } else {
+                        revision.reactions.entry(location).or_default().insert(key);
+                    } else if let Some(reactions) = revision.reactions.get_mut(&location) {
                         reactions.remove(&key);
+                        // Nb. Empty reaction sets are not kept around, they can't be
+                        // represented in the serialized form of a revision.
+                        if reactions.is_empty() {
+                            revision.reactions.remove(&location);
+                        }
                     }
                 }
             }
